@@ -274,6 +274,7 @@ pub fn worker(
 ) {
     install_panic_hook();
     install_log_sink();
+    std::env::set_var("VERIF_TIER_CUR", tier.name());
     let n = prop.cases(tier);
     let cap = Duration::from_secs(prop.time_cap(tier));
     let t0 = Instant::now();
@@ -516,6 +517,7 @@ pub fn run(prop: &dyn Prop, tier: Tier, seed: u64) -> i32 {
 /// Classify, print lines, write evidence.
 pub fn finish(prop: &dyn Prop, tier: Tier, seed: u64, mut m: Merged, t0: Instant) -> i32 {
     let id = prop.id();
+    std::env::set_var("VERIF_TIER_CUR", tier.name());
     let findings = load_findings();
     let open: Vec<&Finding> = findings.iter().filter(|f| f.property == id && f.status == "open").collect();
     let fixed: Vec<&Finding> = findings.iter().filter(|f| f.property == id && f.status == "fixed").collect();
